@@ -24,6 +24,8 @@ _LATEX = r"""#!/bin/sh
 tex="$1"; out="$2"
 printf 'latex\t%s\t%s\n' "$tex" "$out" >> '@LOG@'
 if [ ! -f "$tex" ]; then exit 3; fi
+# a tex file with an error in it: the converter fails and writes nothing
+if grep -q FAILLATEX "$tex"; then echo "! LaTeX Error" >&2; exit 1; fi
 {
   printf 'PDF-OF\n'
   cat "$tex"
